@@ -109,6 +109,15 @@ def gen(rng, tier):
         for v in (-1, 0, 1):
             reqs.append("C17 sign.de_t %s:%d" % (k, v))
             reqs.append("C17 i.de_t %s:%d %s" % (k, v, wwords([5])))
+    # type hints requested while decoding (non-self-describing formats decode by hint; C17-u1: `i64::deserialize` for
+    # the sign): every shape of sequence, accepted and rejected signs
+    for ws in ([], [0], [5], [5, 6], [0, 0, 1], [1, 2, 3, 4, 5], [rng.randrange(W) for _ in range(rng.randrange(6, 40))]):
+        for h in ("", " none", " %d" % len(ws), " 0"):
+            reqs.append("C17 u.de_hints %s%s" % (wwords(ws), h))
+        for sv in (-1, 0, 1, 2, -2, 127, -128, 255, 1 << 40):
+            reqs.append("C17 i.de_hints %d %s%s" % (sv, wwords(ws), rng.choice(["", " none", " %d" % len(ws)])))
+    for sv in (-1, 0, 1, 2, 300):
+        reqs.append("C17 sign.de_hints %d" % sv)
     # typed element tokens: each u32 digit delivered as any integer kind; values at the u32 boundary for the wider
     # kinds (2^32 - 1 accepted, 2^32 / negative / 128-bit / non-integer rejected), mixed kinds in one sequence
     ik = ["u8", "u16", "u32", "u64", "i8", "i16", "i32", "i64"]
